@@ -5,6 +5,7 @@ import CardVerif.Proofs.Omaha.SpecDecomp
 import CardVerif.Proofs.Omaha.Tables
 import CardVerif.Proofs.Omaha.Assemble
 import CardVerif.Proofs.SymPoker
+import CardVerif.Props.C13
 /-!
 # C06, hard half — the optimised Omaha evaluator returns the rules' strength on every deal
 
@@ -21,6 +22,10 @@ arbitrary valid deal into the tables' domain.
 propext / Classical.choice / Quot.sound, on one `._native.native_decide.ax_*` axiom per table chunk, i.e. on the Lean
 compiler and the native code of the `CardModel` library.  Everything else (decomposition, order independence, covering
 lemmas, assembly) is checked by the kernel alone.  No other property uses `native_decide`.
+
+`plo_no_internal_error(_f53)` is the C13 statement "an accepted action never ends in an internal error" for Omaha with
+this evaluator (the one the game code and the native driver run); it lives here, not in `Props/C13.lean`, because the
+evaluator's totality on valid deals is `omaha_fast_eq_spec` and so inherits the table axioms.
 -/
 namespace CardVerif.C06
 open CardVerif CardVerif.Strength CardVerif.OmahaD
@@ -41,6 +46,33 @@ theorem omaha_fast_sym (σ : Nat → Nat) (hσ : Sym.SuitPerm σ) (b b' h h' : L
     Omaha.handStrengthFast b' h' = Omaha.handStrengthFast b h := by
   rw [omaha_fast_eq_spec b' h' (Sym.dealOK_image hσ hd hb hh), omaha_fast_eq_spec b h hd,
     Sym.omahaSpec_image hσ (Sym.dealOK_suits hd) hb hh]
+
+section C13
+open CardVerif.Betting
+
+/-- the optimised evaluator never fails on distinct valid cards -/
+theorem rankTotalOn_omahaFast : RankTotalOn .plo Omaha.handStrengthFast :=
+  fun board hand hb hh hnd hval => ⟨_, omaha_fast_eq_spec board hand ⟨hb, hh, hnd, hval⟩⟩
+
+/-- **C13 `no_internal_error` for Omaha with the optimised evaluator**: an action that `append_action` accepts is
+carried through `advance_action` without any error, cards dealt from one deck; no hypothesis on the evaluator -/
+theorem plo_no_internal_error (env : Env) (cfg : Cfg) (hw : env.w = World.std) (hfl : C14.FlSpec env.fl)
+    (hv : cfg.Valid) (hd : cfg.Dealt) (hg : cfg.game = .plo) (hr : env.rankFn = Omaha.handStrengthFast)
+    {s s1 : State} (h : Reachable env cfg s)
+    (p : Int) (ty : Option ActType) (amt : Option Int) (h1 : s.appendAction env.w p ty amt = .ok s1) :
+    ∃ s', s1.advanceAction env = .ok s' :=
+  C13.no_internal_error_on env cfg hw hfl hv hd (by rw [hg, hr]; exact rankTotalOn_omahaFast) h p ty amt h1
+
+/-- `plo_no_internal_error` for IEEE doubles (what the native driver executes), at most `2^53` chips on the table -/
+theorem plo_no_internal_error_f53 (env : Env) (cfg : Cfg) (hw : env.w = World.std)
+    (hfl : env.fl = Float53.rnd) (hv : cfg.Valid) (hB : sumI cfg.startingStacks ≤ 2 ^ 53) (hd : cfg.Dealt)
+    (hg : cfg.game = .plo) (hr : env.rankFn = Omaha.handStrengthFast)
+    {s s1 : State} (h : Reachable env cfg s)
+    (p : Int) (ty : Option ActType) (amt : Option Int) (h1 : s.appendAction env.w p ty amt = .ok s1) :
+    ∃ s', s1.advanceAction env = .ok s' :=
+  C13.no_internal_error_on_f53 env cfg hw hfl hv hB hd (by rw [hg, hr]; exact rankTotalOn_omahaFast) h p ty amt h1
+
+end C13
 
 /-- non-vacuity: a concrete deal meets the hypothesis (royal flush on board + two hole cards of the suit) -/
 example : DealOK [⟨14, 0⟩, ⟨13, 0⟩, ⟨12, 0⟩, ⟨7, 1⟩, ⟨2, 2⟩] [⟨11, 0⟩, ⟨10, 0⟩, ⟨3, 3⟩, ⟨4, 3⟩] 4 :=
